@@ -124,6 +124,7 @@ def scn(params):
             return out
         viol, st = integrity_violations(k, {c.name: ip for c, ip in zip(t.clients, t.tun_ips)}, server_tun_ip=t.server_tun_ip)
         out["stats"].update(st)
+        out["stats"]["selects_reporting_several_inputs_at_once"] = k.multi_ready
         out["stats"]["tun_writes_refused_by_injection"] = sum(1 for ev in k.log if ev[1] == "tun_write_error")
         for (ts, who, w) in viol[:3]:
             out["violations"].append(("C01:fabricated-frame:%s" % ("server" if who == "srv" else "client"),
